@@ -2,6 +2,7 @@ package engine_test
 
 import (
 	"fmt"
+	"runtime/debug"
 	"strings"
 	"testing"
 
@@ -279,7 +280,7 @@ func c05Plant(cs *vkit.Case, x *vexec.Exec, g *vexec.Gen, guard c05Guard) string
 			if r.Chance(0.5) {
 				x.SaveSnapshot()
 			} else {
-				x.Restart()
+				c05Restart(x)
 			}
 			x.VAdd(ix, id, g.Vec(), map[string]any{"dup": "after_restart"})
 			return "dup_after_restart"
@@ -469,6 +470,89 @@ func c05Probes(ctx *vkit.Ctx) {
 	})
 }
 
+// c05NoVerdict ends a case without a verdict (see c05Restart).
+type c05NoVerdict struct{ why string }
+
+// c05Restart is Exec.Restart with one difference: hnsw.Index.Close gives up after a wall-clock
+// limit of its own (10 s, "close timed out ... waiting for in-flight operations"), which a
+// starved machine trips without any operation being in flight (seen once in 82 000 episodes
+// at a load average of 500; the same episode replayed passes). A wall-clock value must not
+// decide a verdict: such a case is abandoned and counted (no_verdict.close_timeout).
+func c05Restart(x *vexec.Exec) {
+	x.Kinds = append(x.Kinds, "restart")
+	x.Settle()
+	if err := x.CloseRaw(); err != nil {
+		if strings.Contains(err.Error(), "close timed out") {
+			panic(c05NoVerdict{err.Error()})
+		}
+		x.CS.Fail("Close returned error: %v", err)
+	}
+	x.Reopen()
+}
+
+// c05RestartCheck is c01Restart (state identical across Close/Open, equal to the model, searches
+// unchanged, indexes usable) on top of c05Restart.
+func c05RestartCheck(ctx *vkit.Ctx, cs *vkit.Case, x *vexec.Exec, where string) {
+	x.Settle()
+	if msg := x.CheckFull(); msg != "" { // binds clock-chosen values before the restart
+		cs.Fail("%s: state before restart already disagrees with the model: %s", where, msg)
+	}
+	u := x.M.Universe()
+	before := vexec.Observe(x.E, u)
+	probes := c01SearchProbe(ctx, cs, x, where, nil)
+	c05Restart(x)
+	after := vexec.Observe(x.E, u)
+	if d := vexec.Diff(before, after); len(d) > 0 {
+		cs.Attach("diff", d)
+		cs.Fail("%s: %d observable(s) changed across Close/Open, first: %s", where, len(d), d[0])
+	}
+	if msg := x.CheckFull(); msg != "" {
+		cs.Fail("%s: after restart: %s", where, msg)
+	}
+	ctx.Count("restarts", 1)
+	ctx.Count("observables_compared", int64(len(before.Vals)+len(before.Vecs)))
+	// replay may itself write (cascade repairs, re-journaled quantizer range): a second
+	// restart right away must not change anything either
+	if cs.R.Chance(0.2) {
+		c05Restart(x)
+		again := vexec.Observe(x.E, u)
+		if d := vexec.Diff(before, again); len(d) > 0 {
+			cs.Attach("diff", d)
+			cs.Fail("%s: %d observable(s) changed across a second immediate Close/Open, first: %s", where, len(d), d[0])
+		}
+		ctx.Count("restarts.immediate_second", 1)
+	}
+	c01SearchProbe(ctx, cs, x, where, probes)
+	// usability of the indexes that hold vectors (those without: see the caller): add / read /
+	// link / unlink / delete
+	for _, name := range vexec.SortedKeys(x.M.Idx) {
+		mi := x.M.Idx[name]
+		if len(mi.Recs) == 0 || mi.Dim == 0 {
+			continue
+		}
+		v := make([]float32, mi.Dim)
+		for i := range v {
+			v[i] = 0.25 * float32(i+1)
+		}
+		id := fmt.Sprintf("probe%d", x.Restarts)
+		x.VAdd(name, id, v, map[string]any{"probe": true})
+		if msg := x.CheckRecord(name, id); msg != "" {
+			cs.Fail("%s: usability after restart: %s", where, msg)
+		}
+		if tgt := vexec.SortedKeys(mi.Recs)[0]; tgt != id {
+			x.VLink(name, id, tgt, "probe_rel", "", 1, nil)
+			if l, _ := x.E.VGetLinks(name, id, "probe_rel"); len(l) != 1 || l[0] != tgt {
+				cs.Fail("%s: usability after restart: VGetLinks(%s,%s,probe_rel)=%v want [%s]", where, name, id, l, tgt)
+			}
+			x.VUnlink(name, id, tgt, "probe_rel", "", true)
+		}
+		x.VDelete(name, id)
+		if msg := x.CheckRecord(name, id); msg != "" {
+			cs.Fail("%s: usability after restart: %s", where, msg)
+		}
+	}
+}
+
 // c05Shape brings one index into a state that ordinary histories reach rarely and that the
 // validation of a later call may judge differently from the storage below it: EMPTIED (it held
 // vectors, every one of them was deleted), optionally followed by a vacuum, a snapshot, a log
@@ -501,7 +585,7 @@ func c05Shape(cs *vkit.Case, x *vexec.Exec, g *vexec.Gen) string {
 		x.RewriteAOF()
 		label += "+rewrite"
 	case 3:
-		x.Restart()
+		c05Restart(x)
 		label += "+restart"
 	}
 	return label
@@ -549,6 +633,19 @@ func TestVerifC05(t *testing.T) {
 			defer func() {
 				if x.E != nil {
 					x.E.Close()
+				}
+			}()
+			defer func() {
+				if r := recover(); r != nil {
+					nv, ok := r.(c05NoVerdict)
+					if !ok {
+						if fmt.Sprintf("%T", r) != "vkit.failSentinel" { // a real panic: keep its stack
+							cs.Attach("panic_stack", strings.Split(string(debug.Stack()), "\n"))
+						}
+						panic(r)
+					}
+					cs.Op("case abandoned without a verdict: %s", nv.why)
+					ctx.Count("no_verdict.close_timeout", 1)
 				}
 			}()
 			g := vexec.NewGen(cs.R)
@@ -620,8 +717,8 @@ func TestVerifC05(t *testing.T) {
 				}
 			}
 			where := "after planted rejections " + strings.Join(labels, ",")
-			c01Restart(ctx, cs, x, where)
-			// the recovered indexes that hold no vector (c01Restart probes only the others)
+			c05RestartCheck(ctx, cs, x, where)
+			// the recovered indexes that hold no vector (c05RestartCheck probes only the others)
 			// must take what they took before the rejected calls
 			for _, name := range vexec.SortedKeys(x.M.Idx) {
 				if len(x.M.Idx[name].Recs) == 0 {
